@@ -271,9 +271,9 @@ func checkC13(c *Ctx, r *Report) error {
 			return err
 		}
 	}
-	imports := "From Coq Require String.\nFrom Sdfx Require Import Io.F32 Io.Stl Io.StlLoad.\nImport String.StringSyntax.\nOpen Scope N_scope."
+	imports := "From Coq Require String.\nFrom Coq Require Import Uint63.\nFrom Sdfx Require Import Io.F32 Io.Stl Io.StlLoad.\nImport String.StringSyntax.\nOpen Scope N_scope."
 	conv := &Cases{Kind: "conv", Imports: imports, Type: "Stl.conv_case", Fn: "Stl.conv_mismatches", PerShard: 2500}
-	stl := &Cases{Kind: "stl", Imports: imports, Type: "Stl.case", Fn: "Stl.mismatches", PerShard: 1}
+	stl := &Cases{Kind: "stl", Imports: imports, Type: "Stl.case", Fn: "Stl.mismatches", InfoFn: "Stl.inexact", PerShard: 1}
 	asc := &Cases{Kind: "ascii", Imports: imports, Type: "StlLoad.case", Fn: "StlLoad.mismatches", PerShard: 60}
 	id := 0
 
@@ -680,7 +680,12 @@ func writeASCII(rng *Rng, ts []tri) ([]byte, []tri, string) {
 					x = math.Copysign(1e30, x)
 				}
 				s := num(x)
-				want[i][v][j], _ = strconv.ParseFloat(s, 64)
+				var perr error
+				if want[i][v][j], perr = strconv.ParseFloat(s, 64); perr != nil {
+					// e.g. %.9e of a value next to MaxFloat64 rounds up out of range: not a well-formed number
+					s = strconv.FormatFloat(x, 'g', -1, 64)
+					want[i][v][j] = x
+				}
 				sep := " "
 				if rng.Intn(10) == 0 {
 					sep = "  "
